@@ -28,6 +28,11 @@ type op struct {
 	Val  string `json:"val,omitempty"` // w: value; r: old value
 	Req  bool   `json:"req,omitempty"`
 	Hex  string `json:"hex,omitempty"`
+	// look: an optional read of the absent tag Tag (type Ty) in front of the present field
+	// (WTy, WTag, WVal), followed by the required read of that field
+	WTy  string `json:"wty,omitempty"`
+	WTag int    `json:"wtag,omitempty"`
+	WVal string `json:"wval,omitempty"`
 }
 
 func (o op) line() string {
@@ -38,7 +43,7 @@ func (o op) line() string {
 		return fmt.Sprintf("w %s %d %s", o.Ty, o.Tag, o.Val)
 	}
 	r := 0
-	if o.Req {
+	if o.Req && o.Kind != "look" {
 		r = 1
 	}
 	return fmt.Sprintf("r %s %d %d %s %s", o.Ty, o.Tag, r, o.Val, o.Hex)
@@ -105,12 +110,76 @@ func implWrite(ty string, tag byte, val string) (out string) {
 
 // implRead runs the real reader; the result is "ok <value> <pos>" or "err".
 func implRead(ty string, tag byte, req bool, old string, data []byte) (out string) {
+	return implReadOn(codec.NewReader(data), len(data), ty, tag, req, old)
+}
+
+// implLook: optional read of the absent tag, then the required read of the present field, on ONE reader
+func implLook(c op, data []byte) (first, second string) {
+	// observing the position consumes the reader (see implPos): two runs
+	first = canonImpl(implReadOn(codec.NewReader(data), len(data), c.Ty, byte(c.Tag), false, c.Val))
+	rd := codec.NewReader(data)
+	if pre := implReadNoPos(rd, c.Ty, byte(c.Tag), false, c.Val); pre != "ok" {
+		return first, pre
+	}
+	second = canonImpl(implReadOn(rd, len(data), c.WTy, byte(c.WTag), true, oldFor(c.WTy)))
+	return
+}
+
+// implReadNoPos reads without looking at the position afterwards (the reader stays usable)
+func implReadNoPos(rd *codec.Reader, ty string, tag byte, req bool, old string) (out string) {
+	defer func() {
+		if r := recover(); r != nil {
+			out = "panic"
+		}
+	}()
+	var err error
+	switch ty {
+	case "i8":
+		var v int8
+		err = rd.ReadInt8(&v, tag, req)
+	case "i16":
+		var v int16
+		err = rd.ReadInt16(&v, tag, req)
+	case "i32":
+		var v int32
+		err = rd.ReadInt32(&v, tag, req)
+	case "i64":
+		var v int64
+		err = rd.ReadInt64(&v, tag, req)
+	case "u8":
+		var v uint8
+		err = rd.ReadUint8(&v, tag, req)
+	case "u16":
+		var v uint16
+		err = rd.ReadUint16(&v, tag, req)
+	case "u32":
+		var v uint32
+		err = rd.ReadUint32(&v, tag, req)
+	case "bool":
+		var v bool
+		err = rd.ReadBool(&v, tag, req)
+	case "f32":
+		var v float32
+		err = rd.ReadFloat32(&v, tag, req)
+	case "f64":
+		var v float64
+		err = rd.ReadFloat64(&v, tag, req)
+	case "str":
+		var v string
+		err = rd.ReadString(&v, tag, req)
+	}
+	if err != nil {
+		return "err"
+	}
+	return "ok"
+}
+
+func implReadOn(rd *codec.Reader, n int, ty string, tag byte, req bool, old string) (out string) {
 	defer func() {
 		if r := recover(); r != nil {
 			out = fmt.Sprintf("panic %v", r)
 		}
 	}()
-	rd := codec.NewReader(data)
 	var err error
 	var val string
 	switch ty {
@@ -174,7 +243,7 @@ func implRead(ty string, tag byte, req bool, old string, data []byte) (out strin
 	if err != nil {
 		return "err"
 	}
-	return fmt.Sprintf("ok %s %d", val, implPos(rd, len(data)))
+	return fmt.Sprintf("ok %s %d", val, implPos(rd, n))
 }
 
 // implPos: the reader's position, observed through the public API: Next(huge) returns the unread
@@ -591,6 +660,25 @@ func genOps(o *common.Opts, rng *rand.Rand, res *common.Result) []op {
 		}
 		ops = append(ops, op{Kind: "r", Ty: rt, Tag: rtag, Req: rng.Intn(2) == 0, Val: oldFor(rt), Hex: common.Hex(enc)})
 	}
+	// 3b. optional look-ahead: an optional read of an absent lower tag in front of a present field
+	// with tags on both sides of the extended-tag boundary, then the required read of that field
+	for _, wt := range types {
+		vals := valuesFor(wt, rng, false, false)
+		for _, ftag := range []int{1, 14, 15, 16, 17, 200, 255} {
+			for _, rtag := range []int{0, 13, 14, 15, 16} {
+				if rtag >= ftag {
+					continue
+				}
+				v := vals[rng.Intn(len(vals))]
+				enc := implWrite(wt, byte(ftag), v)
+				if strings.HasPrefix(enc, "err") || strings.HasPrefix(enc, "panic") {
+					continue
+				}
+				rt := types[rng.Intn(len(types))]
+				ops = append(ops, op{Kind: "look", Ty: rt, Tag: rtag, Val: oldFor(rt), Hex: enc, WTy: wt, WTag: ftag, WVal: v})
+			}
+		}
+	}
 	// 4. SkipToStructEnd (the iterative skip) on struct bodies: well-formed members of every wire
 	// type and nesting, then mutated, truncated, random, and deeply nested ones
 	nskip := 3000
@@ -731,6 +819,23 @@ func check(c op, modelAns string, res *common.Result, verbose bool) {
 		if back != want {
 			res.Violate(common.Violation{Signature: "C02:round-trip:" + c.Ty, What: "write then read does not return the value at the end of the field",
 				Case: common.Case{Stream: "wire", Op: c, Impl: trunc(back), Note: "expected " + trunc(want)}})
+		}
+		res.TracesValidated++
+	case "look":
+		data := unhex(c.Hex)
+		first, second := implLook(c, data)
+		res.Count("look/"+c.Ty+"/"+tagClass(c.Tag)+"/"+c.WTy+"/"+tagClass(c.WTag), "look:"+c.WTy, true)
+		if mc := canonModel(modelAns, len(data)); first != mc && modelAns != common.NoModel {
+			res.Diverge(common.Case{Stream: "wire", Op: c, Model: trunc(modelAns), Impl: trunc(first)})
+		}
+		// oracle on the implementation alone: the absent optional field changes nothing and consumes
+		// nothing, and the field that is there is then read completely
+		if want := fmt.Sprintf("ok %s 0", c.Val); first != want {
+			res.Violate(common.Violation{Signature: "C02:position:optional-absent-" + c.Ty, What: "an optional read of an absent tag changed the value or moved the reader",
+				Case: common.Case{Stream: "wire", Op: c, Impl: trunc(first), Note: "expected " + want}})
+		} else if want := fmt.Sprintf("ok %s %d", c.WVal, len(data)); second != want {
+			res.Violate(common.Violation{Signature: "C02:round-trip:after-optional-absent-" + c.WTy, What: "after an optional read of an absent lower tag the present field is not read back",
+				Case: common.Case{Stream: "wire", Op: c, Impl: trunc(second), Note: "expected " + trunc(want)}})
 		}
 		res.TracesValidated++
 	case "r":
